@@ -127,3 +127,20 @@ Definition bracket_log (guarded : bool) (n_updates : nat) (fail_after : option n
   | None => PEnter :: repeat PUpdate n_updates ++ [PExit]
   | Some k => PEnter :: repeat PUpdate (Nat.min k n_updates) ++ (if guarded then [PExit] else [])
   end.
+
+(* ---- the paths of one API call through its bracket --------------------------------------------------
+   After enter() the call executes statements; each one goes on (an update is reported), returns early (nothing left to
+   do) or raises (a user callable fails).  [try_from] is the index of the first statement that is inside the
+   try / with block whose finally / __exit__ calls exit(): try_from = 0 is "enter() immediately followed by try" or a
+   with-statement; a statement before the try block that leaves the function skips exit(). *)
+Inductive outcome := Go | Ret | Raise.
+Fixpoint body_log (try_from pos : nat) (stmts : list outcome) : list pev :=
+  match stmts with
+  | [] => [PExit]
+  | Go :: r => PUpdate :: body_log try_from (S pos) r
+  | _ :: _ => if Nat.leb try_from pos then [PExit] else []
+  end.
+Definition call_log (try_from : nat) (stmts : list outcome) : list pev := PEnter :: body_log try_from 0 stmts.
+Definition pev_count (e : pev) (l : list pev) : nat :=
+  length (filter (fun x => match x, e with PEnter, PEnter | PUpdate, PUpdate | PExit, PExit => true | _, _ => false end) l).
+Definition calls_log (try_from : nat) (calls : list (list outcome)) : list pev := concat (map (call_log try_from) calls).
